@@ -1,5 +1,5 @@
 (* Ctlog/InvStep.v — every event preserves the invariant of Ctlog/Inv.v *)
-From SL Require Import Base.BytesProofs Ctlog.Model Ctlog.Spec Ctlog.Inv.
+From SL Require Import Base.BytesProofs Ctlog.Model Ctlog.Recompute Ctlog.Spec Ctlog.Inv.
 From Coq Require Import ZifyN ZifyNat ZifyBool.
 Open Scope N_scope.
 
@@ -496,6 +496,12 @@ Proof.
     eapply inst_inv_core; [| | | | |exact Hx]; reflexivity.
   - (* tampering with object storage: the lock store and the instances are untouched *)
     destruct HI as (C & L & II & P). destruct o; repeat split; assumption.
+  - (* recompute-cache *)
+    destruct (get_inst (w_insts w) i) as [x|] eqn:G; [|exact HI].
+    destruct (step_recompute_spec sha w i x key lim) as [E|(p & ls & c1 & why & _ & _ & _ & E)]; rewrite E; [exact HI|].
+    pose proof (inst_of_inv _ _ _ HI G) as Hx.
+    match goal with |- Inv (set_i w i ?X) => upd_with i X end. { auto. }
+    eapply inst_inv_core; [| | | | |exact Hx]; reflexivity.
 Qed.
 
 Theorem Inv_run evs : forall w, Inv w -> Inv (run evs w).
